@@ -37,11 +37,11 @@ def generate(rng, tier):
         ids = ["a%d" % (i + 1) for i in range(n)]
         rng.shuffle(ids)
     else:
-        pool = ["Zr1", "atom-%d", "x%d_b", "C.%d", "n%03d", "%dq", "id%d", "A%dz"]
+        pool = ["Zr1", "atom-%d", "x%d_b", "C.%d", "n%03d", "%dq", "id%d", "A%dz", "ca%d", "CA%d", "Ca%d", "N%d", "n%d"]
         ids = []
         for i in range(n):
             t = rng.choice(pool)
-            s = t % rng.randint(0, 999) if "%" in t else t
+            s = t % rng.randint(0, 999 if t[:2].lower() not in ("ca", "n%") else 3) if "%" in t else t
             while s in ids:
                 s = s + "_%d" % rng.randint(0, 99)
             ids.append(s)
